@@ -1,5 +1,5 @@
 (* Proofs/NullModelTotal.v — totality: for well-shaped oracles (every argsort result and every permutation draw is a
-   permutation of the right length, enough of them, the rewiring gets its four distinct nodes) the null model RETURNS;
+   permutation of the right length, enough of them, enough randint draws) the null model RETURNS;
    and the domain of the period: every wei_freq in (0, 1] yields a period >= 1. *)
 From Coq Require Import ZArith QArith Qround List Arith Lia Lqa Bool Permutation.
 From BCT Require Import Base.Mat Base.ListX Model.Signed Model.NullModel Proofs.Signed Proofs.NullModelLists
@@ -63,23 +63,21 @@ Proof.
 Qed.
 
 (* ---------- the whole routine ---------- *)
-Theorem null_model_total und n W isint close bs wf pf ints ords perms per o1 p1 o2 p2 :
+Theorem null_model_total und n W close bs wf pf ints ords perms per o1 p1 o2 p2 :
   let Wc := tab 0 n n (clear_diag W) in                  (* W with the diagonal cleared (tab: identity on the grid) *)
   let rew := (length (supp false n 1 Wc) <? n * (n - 1))%nat in
   (0 < n)%nat -> pre und n W ->
   (* the period is in the domain *)
   period_or wf pf = Some per ->
-  (* not the integer-dtype crash *)
-  (isint && negb (Nat.eqb per 0) && has_weight und n Wc)%bool = false ->
   (* if the sign pattern is rewired, the draws do not run out (pick_four_unique_nodes_quickly keeps returning) *)
-  (rew = true -> runs_out und n (n_iter und n bs) Wc ints = false) ->
+  (rew = true -> randmio_runs_out und n Wc bs ints = false) ->
   (* one argsort order + one permutation per period, of the right lengths, for the positive then the negative weights *)
   oracles_ok_sign per (length (supp und n 1 Wc)) ords perms = Some (o1, p1) ->
   oracles_ok_sign per (length (supp und n (-1) Wc)) o1 p1 = Some (o2, p2) ->
-  exists r, null_model und n W isint close bs wf pf ints ords perms = Returned r /\
+  exists r, null_model und n W close bs wf pf ints ords perms = Returned r /\
             snd (nm_unread r) = (length o2, length p2).
 Proof.
-  intros Wc rew Hn HpreW Hper Hcast Hrun Ho1 Ho2. unfold null_model.
+  intros Wc rew Hn HpreW Hper Hrun Ho1 Ho2. unfold null_model.
   assert (Es : (und && negb (symb n W || close))%bool = false).
   { destruct und; [|reflexivity]. rewrite (symb_complete n W (HpreW eq_refl)). reflexivity. }
   rewrite Es. cbv zeta. fold Wc. fold rew.
@@ -87,7 +85,7 @@ Proof.
   { intros Hu. specialize (HpreW Hu).
     intros i j Hi Hj. unfold Wc. rewrite !tab_spec by assumption. unfold clear_diag.
     rewrite (Nat.eqb_sym j i). destruct (Nat.eqb i j); [reflexivity|apply HpreW; assumption]. }
-  assert (Er : (rew && runs_out und n (n_iter und n bs) Wc ints)%bool = false).
+  assert (Er : (rew && randmio_runs_out und n Wc bs ints)%bool = false).
   { destruct rew; [|reflexivity]. cbn [andb]. apply Hrun. reflexivity. }
   rewrite Er.
   set (X := if rew then randmio_signed und n Wc bs ints else (Wc, ints, [])).
@@ -97,7 +95,7 @@ Proof.
       exact (proj1 (randmio_signed_inv und n Wc bs ints Rf sf tr Hn Hpre Erm)).
     - cbn [fst]. apply sinv_refl. exact Hpre. }
   destruct X as [[Wr rest] tr]. cbn [fst] in HX.
-  rewrite Hper, Hcast.
+  rewrite Hper.
   destruct (deal_sign_total und n per 1 Wc Wr zero_mat ords perms o1 p1
               (supp_length_eq und n 1 Wc Wr Hpre HX) Ho1) as [W1 E1].
   rewrite E1.
@@ -172,13 +170,13 @@ Proof.
 Qed.
 
 (* ---------- when np.allclose is not trusted (close = false): the model itself has checked exact symmetry ---------- *)
-Theorem null_model_checked_symmetry und n W isint bs wf pf ints ords perms r : (0 < n)%nat ->
-  null_model und n W isint false bs wf pf ints ords perms = Returned r -> null_model_property und n W r.
+Theorem null_model_checked_symmetry und n W bs wf pf ints ords perms r : (0 < n)%nat ->
+  null_model und n W false bs wf pf ints ords perms = Returned r -> null_model_property und n W r.
 Proof.
-  intros Hn H. apply (null_model_meets_property und n W isint false bs wf pf ints ords perms r Hn); [|exact H].
+  intros Hn H. apply (null_model_meets_property und n W false bs wf pf ints ords perms r Hn); [|exact H].
   intros Hu. subst und. apply symb_spec.
   destruct (symb n W) eqn:Es; [reflexivity|].
-  assert (E : null_model true n W isint false bs wf pf ints ords perms = ParamError)
+  assert (E : null_model true n W false bs wf pf ints ords perms = ParamError)
     by (apply null_model_param_error_iff; auto).
   rewrite E in H. discriminate.
 Qed.
